@@ -22,6 +22,20 @@ module Nat =
                | O -> false
                | S m' -> leb n' m')
 
+  (** val ltb : nat -> nat -> bool **)
+
+  let ltb n m =
+    leb (S n) m
+
+  (** val max : nat -> nat -> nat **)
+
+  let rec max n m =
+    match n with
+    | O -> m
+    | S n' -> (match m with
+               | O -> n
+               | S m' -> S (max n' m'))
+
   (** val min : nat -> nat -> nat **)
 
   let rec min n m =
